@@ -224,6 +224,20 @@ def check(run):
                         run.violation(f"GnuPG-signed metadata still accepted after a change of the {what}", {"kind": "gnupg", "envelope": e2})
                 run._distinct.add(f"gnupg-doc-{i}")
                 run.traces_validated += 1
+            # sign_via_gpg with include_fingerprint: a well-formed OpenPGP entry whose see_also is the fingerprint, and it verifies
+            for fpr in fprs[:3]:
+                data = twin_canon({"probe": fpr})
+                ent = rs.sign_via_gpg(data, fpr, include_fingerprint=True)
+                qk = g.export_pubkey(fpr)["keyval"]["public"]["q"]
+                run.evaluations += 1
+                okf = set(ent) == {"other_headers", "signature", "see_also"} and ent["see_also"] == fpr and common.is_gpg_signature(ent)
+                o3, e3, _ = lib.call(auth.verify_gpg_signature, ent, qk, data)
+                if not okf or o3 != "accept":
+                    run.violation("sign_via_gpg(include_fingerprint=True) does not yield a well-formed, verifying OpenPGP entry with see_also = fingerprint",
+                                  {"kind": "gnupg", "entry": ent, "outcome": o3, "exc": e3})
+                ent2 = rs.sign_via_gpg(data, fpr)
+                if set(ent2) != {"other_headers", "signature"}:
+                    run.violation("sign_via_gpg returns fields beyond other_headers and signature", {"kind": "gnupg", "entry": ent2})
             # fetch_keyval_from_gpg normalisation
             kv = rs.fetch_keyval_from_gpg(" ".join(fprs[0][i:i + 4].upper() for i in range(0, 40, 4)))
             if kv != g.export_pubkey(fprs[0])["keyval"]["public"]["q"]:
